@@ -628,6 +628,53 @@ def derived_data(ctx, rule="C02.derived-data"):
     ctx.floor(rule, 8)
 
 
+def graph_identity(ctx, rule="C02.elision"):
+    ctx.explain(f"{rule}: (identity shortcut of graph embeddings) 'the matrix is the identity, emit nothing' is right for operations whose "
+                "matrix IS the transformation (Interferometer: unitary, GaussianTransform: symplectic). For the classes that embed a GRAPH "
+                "(their decomposition goes through dec.graph_embed / dec.bipartite_graph_embed: the matrix is an adjacency matrix) the "
+                "identity matrix is a graph like any other - self-loops, or a perfect matching between the two vertex sets - and embeds into "
+                "squeezers with the requested mean photon number: no emission of commands in their _decompose is control-dependent on an "
+                "identity test of the matrix.")
+    n = 0
+    for cls in ctx.tree.module("ops.py").classes.values():
+        if not cls.is_subclass_of("Decomposition"):
+            continue
+        ms = [m for m in (cls.methods.get("__init__"), cls.methods.get("_decompose")) if m is not None]
+        graph = any(isinstance(c, ast.Call) and (dotted(c.func) or "").split(".")[-1] in ("graph_embed", "bipartite_graph_embed")
+                    for m in ms for c in walk_no_nested(m.node))
+        if not graph or cls.methods.get("_decompose") is None:
+            continue
+        # attributes of self that hold an identity test of a matrix (compared with np.identity / np.eye)
+        flags = set()
+        init = cls.methods.get("__init__")
+        if init is not None:
+            for st in walk_no_nested(init.node):
+                if isinstance(st, ast.Assign) and len(st.targets) == 1 and isinstance(st.targets[0], ast.Attribute) and \
+                        dotted(st.targets[0].value) == "self":
+                    a = st.targets[0].attr
+                    if any(isinstance(c, ast.Call) and (dotted(c.func) or "").split(".")[-1] in ("identity", "eye") for c in ast.walk(st.value)):
+                        flags.add(a)
+                    elif isinstance(st.value, ast.Constant) and st.value.value is True:
+                        # `if allclose(A, identity): self.identity = True`
+                        par = getattr(st, "parent", None)
+                        if isinstance(par, ast.If) and any(isinstance(c, ast.Call) and (dotted(c.func) or "").split(".")[-1] in ("identity", "eye")
+                                                           for c in ast.walk(par.test)):
+                            flags.add(a)
+        f = cls.methods["_decompose"]
+        n += 1
+        bad = None
+        for st in walk_no_nested(f.node):
+            if isinstance(st, ast.If) and any(isinstance(c, ast.Call) and (dotted(c.func) or "").split(".")[-1] == "Command" for c in ast.walk(st)):
+                t = expand_locals(f.node, st.test)
+                reads = {x.attr for x in ast.walk(t) if isinstance(x, ast.Attribute) and dotted(x.value) == "self"}
+                if reads & flags:
+                    bad = st
+        ctx.ob(rule, f.site, bad is None, "" if bad is None else f"`if {ast.unparse(bad.test)[:50]}`: the commands of {cls.name} are emitted only when "
+               f"the adjacency matrix is not the identity ({sorted(flags)}), but the identity matrix is a non-trivial graph: the embedding is dropped",
+               role="graph-identity-shortcut", line=(bad.lineno if bad is not None else f.node.lineno))
+    ctx.require(n >= 2, f"only {n} graph-embedding decompositions found in ops.py")
+
+
 def rules(ctx):
     dagger_products(ctx)
     first_param(ctx)
@@ -637,6 +684,7 @@ def rules(ctx):
     driver(ctx)
     elision(ctx)
     prep_every_mode(ctx)
+    graph_identity(ctx)
     zero_is_identity(ctx)
     pure_decompose(ctx)
     derived_data(ctx)
